@@ -497,7 +497,8 @@ def run_task(prop: Any, task: Dict[str, Any]) -> Dict[str, Any]:
     cfg = task["cfg"]
     t0 = time.time()
     shard = task["shard"]
-    flag = bool(shard % 2) if task["tier"] == "thorough" else bool(util.crc(cfg["id"] + task["env"]) % 2)
+    # next_obs_in_extras: both settings per configuration (alternating over the shards, starting point per config)
+    flag = bool((shard + util.crc(cfg["id"] + task["env"])) % 2)
     B = task.get("B", 3)
     ws = WrapSys(adapter, cfg, flag, scan_len=task.get("scan_len", 3))
     stats = Stats()
